@@ -14,16 +14,16 @@ CHECKS = {
  "C06": ("model-based testing: Hypothesis-generated URDF robots (grammar) + extra colliders, op lists of joint moves / re-posed frames / queries; brute-force AABB overlap, reference-shape poses, all-pairs reference GJK for self-collision (clear cases only)",
          "generated histories against brute-force and reference oracles after every step; held on everything explored"),
  "C19": ("property-based testing (Hypothesis) with a harness-owned clock: support-evaluation counters shadowed on collider instances (budget 1000), and interpreted-mode runs under a sys.monitoring LINE|JUMP|BRANCH event budget; finiteness and exception contract",
-         "bounded form of termination decided deterministically (no wall clock); generated extreme / degenerate scenes; two open known findings"),
+         "bounded form of termination decided deterministically (no wall clock); generated extreme / degenerate scenes; one open known finding (C19-K1)"),
  "C07": ("property-based testing (Hypothesis): overlapping scenes, gjk -> epa protocol, vs exact qhull penetration depth (polytope pairs) and certified bounds (smooth pairs); both simplex windings",
-         "generated-input search with an exact oracle for polytopes; one open known finding (GJK hands over an incomplete simplex)"),
+         "generated-input search with an exact oracle for polytopes; two open known findings (GJK hands over an incomplete simplex; default face capacity)"),
  "C08": ("property-based testing (Hypothesis): overlapping scenes, mpr_penetration vs exact qhull penetration depth (polytopes) / ball-witness bounds, translation test, contact membership",
-         "generated-input search with lower-bound witnesses for every reported violation; three open known findings on the contact position"),
- "C09": ("property-based testing (Hypothesis): C01 scenes vs original GJK (points, consistency, optimality) and Nesterov variants (value); iteration helpers on fresh objects",
-         "generated-input search against construction witnesses / certified reference GJK; two open known findings for use_nesterov_acceleration=True"),
- "C10": ("property-based testing (Hypothesis): all 34 functions x placement families; closed-form point-to-primitive residuals and consistency",
+         "generated-input search with lower-bound witnesses for every reported violation; four open known findings on the contact position"),
+ "C09": ("property-based testing (Hypothesis) + coverage-guided fuzzing (atheris, thorough tier): C01 scenes vs original GJK (points, consistency, optimality) and Nesterov variants (value); iteration helpers on fresh objects",
+         "generated-input search against construction witnesses / certified reference GJK; one open known finding for use_nesterov_acceleration=True (iteration limit)"),
+ "C10": ("property-based testing (Hypothesis) + coverage-guided fuzzing of the line/box case tree (atheris, thorough tier): all 34 functions x placement families; closed-form point-to-primitive residuals and consistency",
          "generated-input search over all exported functions and degenerate placement families with closed-form membership oracles; two open known findings (disk_to_disk, circle functions)"),
- "C11": ("property-based testing (Hypothesis): same cases; certified reference GJK interval (convex pairs), closed forms (line/plane pairs), exhaustive 1-D search (circle); epsilon bands measured and excluded",
+ "C11": ("property-based testing (Hypothesis) + coverage-guided fuzzing of the line/box case tree (atheris, thorough tier): same cases; certified reference GJK interval (convex pairs), closed forms (line/plane pairs), exhaustive 1-D search (circle); epsilon bands measured and excluded",
          "generated-input search; a violation always carries a closer pair of points; three open known findings (disk_to_disk, line_segment_to_circle, line_to_circle)"),
  "C12": ("metamorphic property-based testing (Hypothesis): base scene + transform (argument swap, rigid motion, uniform scale); image rebuilt from transformed specs; scalar outputs compared within the summed tolerances, booleans on clear scenes, points only for unique optima",
          "generated-input search with metamorphic oracles over the queries of C01, C02, C07-C11; two open known findings"),
@@ -35,13 +35,13 @@ CHECKS = {
          "generated-input search with metamorphic oracles (no reference model needed); two open known findings traced to unstable contact polygons"),
  "C17": ("property-based testing (Hypothesis): factory parameters incl. class boundaries; determinant volumes with exact rational sign for slivers, qhull volume, point-in-exactly-one-tetrahedron partition test, analytic signed distance for vertices/potentials, helper recomputation",
          "generated-input search with independent geometric oracles; held on everything explored"),
- "C18": ("exhaustive enumeration of the {-1,0,1} lattice (thorough: all 551880 configurations) + Hypothesis (lattice {-2..2}, scaled, near-degenerate, duplicates) against an exact rational (Fraction) brute-force oracle; both solvers",
-         "finite sub-domain enumerated completely in the thorough tier (quick: one residue class mod 16) plus generated-input search; exact oracle"),
+ "C18": ("exhaustive enumeration of the {-1,0,1} lattice (thorough: all 551880 configurations) + coverage-guided fuzzing (atheris, thorough tier) + Hypothesis (lattice {-2..2}, scaled, near-degenerate, duplicates) against an exact rational (Fraction) brute-force oracle; both solvers",
+         "finite sub-domain enumerated completely in the thorough tier (quick: one residue class mod 16) plus generated-input search; exact oracle; two open known findings (absolute epsilons of both solvers on small or nearly flat configurations)"),
  "C14": ("model-based testing: Hypothesis-generated update_pose/query histories vs a freshly constructed collider at the last pose",
          "generated operation sequences (poses as fresh arrays or stack items) against a fresh-object oracle after every query; held on everything explored"),
  "C20": ("differential testing: Hypothesis-generated call lists executed by three fresh interpreters (numba JIT, NUMBA_DISABLE_JIT=1, NUMBA_BOUNDSCHECK=1) and compared record by record",
          "generated-input differential search over all jitted public entry points; held on everything explored"),
- "C05": ("model-based testing: Hypothesis-generated insertion/query histories vs list model with brute-force overlap; jit and boundscheck modes",
+ "C05": ("model-based testing (+ coverage-guided fuzzing of histories with atheris in the thorough tier): Hypothesis-generated insertion/query histories vs list model with brute-force overlap; jit and boundscheck modes",
          "generated operation sequences against a reference model with structural invariants after every step; held on everything explored"),
 }
 NOTES = {}
